@@ -19,7 +19,7 @@ theorem loadStep_lit (cnf : CNF) (ns : List (Label × Name × Key)) (ld : Loaded
     ∃ S2 : Store,
       (loadStep cnf ns (ld, seen) (.lit name)).1 =
         ⟨S2, ld.line2node ++ [if name < 0 then
-            negate (ld.store.addAtom (.user (name.natAbs : Int)) .normal
+            negKey (ld.store.addAtom (.user (name.natAbs : Int)) .normal
               ((lookup cnf.weights name.natAbs).getD .neutral)).2
           else (ld.store.addAtom (.user (name.natAbs : Int)) .normal
               ((lookup cnf.weights name.natAbs).getD .neutral)).2]⟩ ∧
@@ -105,7 +105,7 @@ theorem Rep_step_lit (cnf : CNF) (ns : List (Label × Name × Key)) (c : Circuit
   refine Rep_snoc h (.lit name) S2 _ f1 f2 f3 f4 ⟨i, hlk, ?_⟩
   by_cases hneg : name < 0
   · simp only [hneg, if_true]
-    exact negate_some _ (by omega)
+    exact negKey_some _
   · simp only [hneg, if_false]
 
 theorem Rep_step_and (cnf : CNF) (ns : List (Label × Name × Key)) (c : Circuit) (ld : Loaded) (seen : List Int)
@@ -185,11 +185,80 @@ theorem Rep_congr {c : Circuit} {ld ld' : Loaded} (h : Rep c ld) (h1 : shapes ld
     by rw [h2, h3]; exact h.lit, by rw [h1, h3]; exact h.conj, by rw [h1, h3]; exact h.disj,
     by rw [h3]; exact h.mono, by rw [h3, hl]; exact h.last⟩
 
+/-- when the last line is a literal, the last store node is the explicit root `conj [key of the last line]` -/
+def RootOK (c : Circuit) (ld : Loaded) : Prop :=
+  ∀ l : Int, c.getLast? = some (NNode.lit l) →
+    (shapes ld.store).getLast? = some (.conj [ld.line2node.getLast?.getD none] none)
+
+theorem loadRoot_lit (c : Circuit) (ld0 : Loaded) (l : Int) (h : c.getLast? = some (NNode.lit l)) :
+    loadRoot c ld0 =
+      ⟨{ ld0.store with nodes := ld0.store.nodes ++ [.conj [ld0.line2node.getLast?.getD none] none] },
+        ld0.line2node⟩ := by
+  unfold loadRoot
+  rw [h]
+  rfl
+
+theorem loadRoot_other (c : Circuit) (ld0 : Loaded) (h : ∀ l : Int, c.getLast? ≠ some (NNode.lit l)) :
+    loadRoot c ld0 = ld0 := by
+  unfold loadRoot
+  split
+  · rename_i l hl; exact absurd hl (h l)
+  · rfl
+
+theorem Rep_root {c : Circuit} {ld0 : Loaded} (h : Rep c ld0) :
+    Rep c (loadRoot c ld0) ∧ RootOK c (loadRoot c ld0) := by
+  by_cases hl : ∃ l : Int, c.getLast? = some (NNode.lit l)
+  · obtain ⟨l, hl⟩ := hl
+    rw [loadRoot_lit c ld0 l hl]
+    have e1 : shapes { ld0.store with nodes := ld0.store.nodes ++ [.conj [ld0.line2node.getLast?.getD none] none] } =
+        shapes ld0.store ++ [.conj [ld0.line2node.getLast?.getD none] none] := by
+      simp [shapes, shape, Node.setName]
+    constructor
+    · refine ⟨h.len, ?_, h.inj, h.lit, ?_, ?_, h.mono, ?_⟩
+      · intro x i hx
+        obtain ⟨h1, a, g, e, h2⟩ := h.idx x i hx
+        exact ⟨h1, a, g, e, by rw [e1]; exact getElem?_some_of_prefix _ _ _ _ h2⟩
+      · intro j cs hj
+        obtain ⟨m, h1, h2, h3⟩ := h.conj j cs hj
+        exact ⟨m, h1, h2, by rw [e1]; exact getElem?_some_of_prefix _ _ _ _ h3⟩
+      · intro j d cs hj
+        obtain ⟨m, h1, h2, h3⟩ := h.disj j d cs hj
+        exact ⟨m, h1, h2, by rw [e1]; exact getElem?_some_of_prefix _ _ _ _ h3⟩
+      · intro nd hnd hc
+        rw [hl] at hnd
+        injection hnd with hnd
+        subst hnd
+        simp [isCompound] at hc
+    · intro l' _
+      rw [e1]; simp
+  · have hno : ∀ l : Int, c.getLast? ≠ some (NNode.lit l) := fun l hh => hl ⟨l, hh⟩
+    rw [loadRoot_other c ld0 hno]
+    exact ⟨h, fun l hh => absurd hh (hno l)⟩
+
+theorem loadRoot_fields (c : Circuit) (ld0 : Loaded) :
+    (loadRoot c ld0).store.idxAtom = ld0.store.idxAtom ∧ (loadRoot c ld0).store.weights = ld0.store.weights ∧
+      (loadRoot c ld0).line2node = ld0.line2node := by
+  unfold loadRoot
+  split
+  · exact ⟨rfl, rfl, rfl⟩
+  · exact ⟨rfl, rfl, rfl⟩
+
 /-- **the loaded store represents the circuit** -/
 theorem loadNnf_rep (c : Circuit) (cnf : CNF) (ns : List (Label × Name × Key)) (hn : litsNormal cnf c = true) :
     Rep c (loadNnf c cnf ns) := by
   rw [loadNnf_eq]
-  obtain ⟨h1, h2, _, h4⟩ := loadFinish_fields cnf ns (c.foldl (loadStep cnf ns) (⟨loadInit, []⟩, []))
-  exact Rep_congr (Rep_fold cnf ns c hn) h1 h2 h4
+  obtain ⟨h1, h2, _, h4⟩ := loadFinish_fields cnf ns
+    (loadRoot c (c.foldl (loadStep cnf ns) (⟨loadInit, []⟩, [])).1, (c.foldl (loadStep cnf ns) (⟨loadInit, []⟩, [])).2)
+  exact Rep_congr (Rep_root (Rep_fold cnf ns c hn)).1 h1 h2 h4
+
+/-- … and has an explicit root node when the last line is a literal -/
+theorem loadNnf_rootOK (c : Circuit) (cnf : CNF) (ns : List (Label × Name × Key)) (hn : litsNormal cnf c = true) :
+    RootOK c (loadNnf c cnf ns) := by
+  rw [loadNnf_eq]
+  obtain ⟨h1, _, _, h4⟩ := loadFinish_fields cnf ns
+    (loadRoot c (c.foldl (loadStep cnf ns) (⟨loadInit, []⟩, [])).1, (c.foldl (loadStep cnf ns) (⟨loadInit, []⟩, [])).2)
+  intro l hl
+  rw [h1, h4]
+  exact (Rep_root (Rep_fold cnf ns c hn)).2 l hl
 
 end ProbLogProofs.DDNNF
